@@ -19,7 +19,7 @@ LEVEL = "exploration"
 ENGINE = "netsim-thread"
 
 TIERS = {
-    "quick": {"runs": 6000, "batch": 100},
+    "quick": {"runs": 16000, "batch": 200},
     "thorough": {"runs": 300000, "batch": 500},
 }
 
@@ -54,7 +54,7 @@ def _mk_msg(rng, uid, kinds):
         nonce = (uid << 32) | rng.getrandbits(32)
         if rng.random() < 0.05:
             nonce = (uid << 32) | 0xFFFFFFFF
-        return {"cmd": "ping", "payload": codecs.ping(nonce).hex()}
+        return {"cmd": "ping", "payload": codecs.ping(nonce).hex(), "plain_nonce": True}
     if kind == "version":
         ua = rng.choice([b"", b"/sim:%d/" % uid, b"/Satoshi:25.0.0/"])
         pl = codecs.version(
@@ -193,9 +193,19 @@ def plan(seed, tier="quick", index=0):
                 "port": 18000 + p,
                 "msgs": msgs,
                 "cut_mode": mode,
-                "segments": _segments(rng, fr, mode, gap, 0.0 if sync else None),
+                "gap": gap,
+                "t0": 0.0 if sync else rng.choice([0.0, 0.001, 0.5]),
+                "segments": [],
             }
         )
+    pings = [m for p in peers for m in p["msgs"] if m.get("plain_nonce")]
+    for special in (0, 2**64 - 1):
+        if pings and rng.random() < 0.25:
+            m = pings.pop(rng.randrange(len(pings)))
+            m["payload"] = codecs.ping(special).hex()  # boundary nonces, each used at most once per scenario
+    for pd in peers:
+        fr = [frames.frame(magic, m["cmd"], bytes.fromhex(m["payload"])) for m in pd["msgs"]]
+        pd["segments"] = _segments(sub_rng(seed, "seg%d" % pd["port"]), fr, pd["cut_mode"], pd["gap"], pd["t0"])
     gran = rng.choice(["io", "line", "line", "line", "line", "opcode"])
     nmsgs = sum(counts)
     scale = {"io": 0.25, "line": 1.0, "opcode": 5.0}[gran]
@@ -245,19 +255,36 @@ class LogDeque(deque):
     """deque that reports who inserts / removes (for the interleaving measure and
     the foreign-removal probe; verdicts do not depend on it)."""
 
+    _ctx = None  # instances made by the code under test (copy(), type(q)(...)) are unbound until adopted
+
     def _bind(self, ctx):
         self._ctx = ctx
         self._owner = {}
         self._keep = []
         return self
 
+    def copy(self):
+        c = LogDeque(self)
+        if self._ctx is not None:
+            c._bind(self._ctx)
+            c._owner = dict(self._owner)
+            c._keep = list(self._keep)
+            self._ctx.qstep(self._ctx.sched.me(), "copy")
+        return c
+
+    __copy__ = copy
+
     def _ins(self, item):
+        if self._ctx is None:
+            return
         tid = self._ctx.sched.me()
         self._owner[id(item)] = tid
         self._keep.append(item)
         self._ctx.qstep(tid, "ins")
 
     def _rem(self, item):
+        if self._ctx is None:
+            return
         tid = self._ctx.sched.me()
         self._ctx.qstep(tid, "rem")
         own = self._owner.get(id(item))
@@ -314,7 +341,7 @@ class Ctx:
 
 # --------------------------------------------------------------------------- execute
 def execute(scenario, tape=None, keep_events=False):
-    p2p = p2p_module()
+    p2p = p2p_module(fresh=True)
     seed = scenario["seed"]
     res = RunResult()
     res.stratum = scenario["stratum"]
@@ -473,14 +500,14 @@ def execute(scenario, tape=None, keep_events=False):
     if changes >= 2:
         probes.hit("queue-steps-interleaved")
     # was some thread's insert..remove window entered by another thread's insert?
-    open_ins = {}
-    for tid, op, extra in ctx.detail:
+    last_ins = {}
+    for pos, (tid, op, extra) in enumerate(ctx.detail):
         if op == "ins":
-            if any(t != tid for t in open_ins):
+            last_ins[tid] = pos
+        elif op == "rem" and tid in last_ins:
+            lo = last_ins.pop(tid)
+            if any(t != tid and o == "ins" for t, o, _ in ctx.detail[lo + 1 : pos]):
                 probes.hit("insert-inside-other-threads-insert-remove-window")
-            open_ins[tid] = True
-        elif op == "rem" or (op == "test" and extra is False):
-            open_ins.pop(tid, None)
     if scenario["stratum"] == "small":
         res.stats["small_sig"] = repr(sig)
     faults["idle-timeout-at-shutdown"] = faults.get("idle-timeout", 0) - timeouts_before_stop
@@ -551,17 +578,6 @@ def shrink_candidates(scenario, tape):
     """Yield (scenario', tape') candidates, simplest ideas first."""
     import copy
 
-    # fewer context switches: replace decisions by "stay" (-1) in blocks
-    if tape:
-        n = len(tape)
-        size = n
-        while size >= 1:
-            for start in range(0, n, size):
-                if any(c != -1 for c in tape[start : start + size]):
-                    t2 = list(tape)
-                    t2[start : start + size] = [-1] * min(size, n - start)
-                    yield scenario, t2
-            size //= 2
     # drop a whole peer (the last one, so peer numbers of the others stay)
     if len(scenario["peers"]) > 1:
         sc = copy.deepcopy(scenario)
